@@ -67,7 +67,9 @@ class CompositeFrontend(ConstrainedFrontend):
 
     def __setstate__(self, s):
         self._solvers, self._template_frontend, self._unsat, self._track, base_state = s
-        self._owned_solvers = weakref.WeakSet(self._solver_list)
+        # a composite and its branch pickled together come back sharing their children, as before: nothing is owned
+        # until it is claimed (copied) again
+        self._owned_solvers = weakref.WeakSet()
         # which children still have to be checked is not pickled: every one of them may
         self._unchecked_solvers = weakref.WeakSet(self._solver_list)
         super().__setstate__(base_state)
